@@ -934,10 +934,18 @@ def main():
     for fn in os.listdir(REPLAYS):
         if fn.startswith(prop + "-"):
             os.remove(os.path.join(REPLAYS, fn))
-    for f in oracle_fails[:6]:
+    unreproduced = 0
+    for f in oracle_fails[:40]:
         if len(violations) >= 2:
             break
         lines = f["ops"]
+        if not f.get("recorded") and f.get("src") != "corpus":
+            # single-thread components are deterministic: a failure that does not reproduce when the
+            # case is run again on its own was an artefact of the run (a driver or harness binary
+            # replaced underneath it, a resource limit), not a property of the code
+            if judge_case(prop, lines, mode, oracle_id)[0]:
+                unreproduced += 1
+                continue
         if f.get("recorded"):
             sig = hashlib.sha1("\n".join(lines).encode()).hexdigest()[:10]
             os.makedirs(REPLAYS, exist_ok=True)
@@ -966,6 +974,19 @@ def main():
         path = write_replay(prop, sig, small, [f"oracle {oracle_id} fails on the implementation", f"source: {f['src']}",
                                                f"replay: tools/check.py {prop} --replay <this file>"])
         violations.append((path, ""))
+    # disagreements and failed batches that do not reproduce on their own are artefacts of the run
+    if disagreements and not violations:
+        kept = []
+        for d in disagreements:
+            if len(kept) >= 3:
+                kept.append(d)
+                continue
+            if d.get("src") == "corpus" or not judge_case(prop, d["ops"], mode, oracle_id)[1]:
+                kept.append(d)
+        if len(kept) < len(disagreements):
+            notes.append(f"{len(disagreements) - len(kept)} model/implementation disagreement(s) of the batch runs "
+                         "did not reproduce when the case was run again on its own and were discarded")
+        disagreements = kept
     if not violations and (disagreements or fatal or tie_broken):
         # the tie is broken: search harder for a failing input (bigger budget, targeted profiles)
         found = None
@@ -1012,6 +1033,9 @@ def main():
             path = write_replay(prop, f"tie-{seed}", body, header)
             violations.append((path, " no-failing-input-found"))
 
+    if unreproduced:
+        notes.append(f"{unreproduced} oracle failure(s) of the batch runs did not reproduce when the case was run "
+                     "again on its own and were discarded")
     # ---- evidence
     hist = {}
     nontrivial = 0
